@@ -22,6 +22,7 @@ def competitor_scenario(r, coin="bitcoin", callback="csvdump", T=None, kinds=Non
     per_file = r.choice([None, 2, 3])
     GC.simple_layout(s, active, per_file=per_file)
     # competitors' data goes to a separate file (and sometimes into a file of the active chain)
+    comp_heights = []
     comp_file_no = 7
     comp_name = K.blkname(comp_file_no)
     pos = [0]
@@ -91,6 +92,7 @@ def competitor_scenario(r, coin="bitcoin", callback="csvdump", T=None, kinds=Non
                 b = grind(mkblock(prev, h), r.random() < 0.7, active[h].hash(), r)
                 off = store(b)
                 s.kvs.append(K.record(b.hash(), h, K.ACTIVE, len(b.txs), comp_file_no, off, b.header(), undo=9))
+                comp_heights.append(h)
                 prev = b.hash()
             notes.append((kind, fork, length))
         elif kind == "foreign-keys":
@@ -102,5 +104,6 @@ def competitor_scenario(r, coin="bitcoin", callback="csvdump", T=None, kinds=Non
     if comp_name in s.files and not s.files[comp_name]["segs"]:
         del s.files[comp_name]
     r.shuffle(s.kvs)
-    s.meta = {"T": T, "competitors": str(notes)}
+    s.meta = {"T": T, "competitors": str(notes), "comp_heights": str(sorted(set(comp_heights)))}
+    s._comp_heights = sorted(set(comp_heights))
     return s, active
